@@ -530,6 +530,10 @@ func (p *Proc) evalSpecCall(ec *ectx, name string, call *ast.CallExpr) (Val, boo
 		return Val{T: Sel(card, m.T), Typ: types.Typ[types.Int]}, true
 	case "spawned":
 		return Val{T: p.heapGet(ec.st, "G:$spawned", SInt), Typ: types.Typ[types.Int]}, true
+	case "wellformed":
+		// an interface value that is not a nil pointer wrapped in an interface
+		v := p.eval(ec, call.Args[0])
+		return Val{T: Or(Not(IsIfacePtr(v.T)), Neq(IPtr(v.T), IntLit(0))), Typ: boolT}, true
 	case "backing":
 		// the backing array of a slice, as a value (for whole-array equalities)
 		v := p.eval(ec, call.Args[0])
@@ -551,6 +555,10 @@ func (p *Proc) evalSpecCall(ec *ectx, name string, call *ast.CallExpr) (Val, boo
 		return Val{T: p.heapGet(ec.st, "G:$handed", SInt), Typ: types.Typ[types.Int]}, true
 	case "invoked":
 		return Val{T: p.heapGet(ec.st, "G:$invoked", SInt), Typ: types.Typ[types.Int]}, true
+	case "sendcount":
+		return Val{T: p.heapGet(ec.st, "G:$sendcount", SInt), Typ: types.Typ[types.Int]}, true
+	case "lastsent":
+		return Val{T: p.heapGet(ec.st, "G:$lastsent", SIface), Typ: types.NewInterfaceType(nil, nil)}, true
 	case "spawncount":
 		return Val{T: p.heapGet(ec.st, "G:$spawncount", SInt), Typ: types.Typ[types.Int]}, true
 	case "resolved":
